@@ -251,6 +251,7 @@ Qed.
 
 Section Lib.
 Variables extra_cols extra_mat : nat.
+Variable fixed : bool.
 
 Theorem lib_addcol_ok s ents s' :
   LWF s -> lib_addcol extra_cols extra_mat s ents = Ok s' ->
@@ -278,17 +279,17 @@ Lemma NoDup_nth_inj (l : list nat) i j : NoDup l -> i < length l -> j < length l
 Proof. intros ND Hi Hj E. apply (proj1 (NoDup_nth l 0) ND i j Hi Hj E). Qed.
 
 Theorem lib_addrow_ok s ents coef s' :
-  LWF s -> lib_addrow extra_cols extra_mat s ents coef = Ok s' ->
+  LWF s -> lib_addrow extra_cols extra_mat fixed s ents coef = Ok s' ->
   LWF s' /\ ents_of s' = app_row_ent (ents_of s) 0 (mrows (lA s)) ents /\ smap s' = smap s /\
   length (rmap s') = S (length (rmap s)) /\ mrows (lA s') = S (mrows (lA s)).
 Proof.
   intros L. unfold lib_addrow, bind.
   destruct (forallb (fun e => fst e <? length (smap s)) ents) eqn:V; [|discriminate]. simpl negb. cbv iota.
   set (ents' := map (fun e => (nth (fst e) (smap s) 0, snd e)) ents).
-  destruct (mat_addrow extra_mat (lA s) ents') as [A1| |] eqn:E1; try discriminate.
+  destruct (mat_addrow extra_mat fixed (lA s) ents') as [A1| |] eqn:E1; try discriminate.
   destruct (mat_addcol extra_cols extra_mat A1 [(mrows (lA s), coef)]) as [A2| |] eqn:E2; try discriminate.
   intros H; inversion H; subst s'; clear H.
-  destruct (mat_addrow_ok extra_mat (lA s) ents' A1 (lwf_A _ L) E1) as (W1 & MC1 & MR1 & _ & CS1).
+  destruct (mat_addrow_ok extra_mat fixed (lA s) ents' A1 (lwf_A _ L) E1) as (W1 & MC1 & MR1 & _ & CS1).
   destruct (mat_addcol_ok extra_cols extra_mat A1 _ A2 W1 E2) as (W2 & MC2 & MR2 & CO2 & _).
   pose proof (lwf_srange _ L) as SR. pose proof (lwf_rrange _ L) as RR. rewrite Forall_forall in SR, RR.
   assert (Vf : forall e, In e ents -> fst e < length (smap s)).
@@ -592,6 +593,7 @@ Qed.
 Section Step.
 Variable M : Q.
 Variables extra_cols extra_mat : nat.
+Variable fixed : bool.
 
 Lemma pstep_delcols_spec p o p' t :
   match o with DelCols _ | DelSetCols _ | DelNCols _ => True | _ => False end -> pstep M p o = (p', ROk t) ->
@@ -618,11 +620,11 @@ Proof.
 Qed.
 
 Lemma refines_addrow s p rhs sn rng nm ent p' s' :
-  refines s p -> add_row p rhs sn rng nm ent = Some p' -> lib_addrow extra_cols extra_mat s (nat_ents ent) (coef_of_sense sn) = Ok s' -> refines s' p'.
+  refines s p -> add_row p rhs sn rng nm ent = Some p' -> lib_addrow extra_cols extra_mat fixed s (nat_ents ent) (coef_of_sense sn) = Ok s' -> refines s' p'.
 Proof.
   intros (L & E & R) H1 H2. unfold add_row in H1. destruct (sense_of_ascii sn); [|discriminate]. destruct (pick_name _ _ _); [|discriminate].
   destruct (conv_ent (ncol p) ent) as [e|] eqn:C; [|discriminate]. inversion H1; subst p'; clear H1.
-  destruct (lib_addrow_ok _ _ _ _ _ _ L H2) as (L' & E' & _ & R' & _).
+  destruct (lib_addrow_ok _ _ _ _ _ _ _ L H2) as (L' & E' & _ & R' & _).
   split; [exact L'|]. split.
   - rewrite E'. simpl. rewrite app_row_sc_ent. rewrite E. rewrite (conv_ent_nat _ _ _ C). rewrite <- (lwf_rows _ L), R. reflexivity.
   - rewrite R'. unfold nrow; simpl. rewrite app_length. simpl. unfold nrow in R. lia.
@@ -637,12 +639,12 @@ Proof.
     apply (IH s1 p1); [eapply refines_addcol; eauto|exact H1|exact H2].
 Qed.
 
-Lemma refines_addrows l : forall s p p' s', refines s p -> add_rows p l = Some p' -> l2_addrows extra_cols extra_mat s l = Ok s' -> refines s' p'.
+Lemma refines_addrows l : forall s p p' s', refines s p -> add_rows p l = Some p' -> l2_addrows extra_cols extra_mat fixed s l = Ok s' -> refines s' p'.
 Proof.
   induction l as [|[[[[rhs sn] rng] nm] ent] r IH]; intros s p p' s' Rf H1 H2; simpl in *.
   - inversion H1; inversion H2; subst. exact Rf.
   - destruct (add_row p rhs sn rng nm ent) as [p1|] eqn:A; [|discriminate]. unfold bind in H2.
-    destruct (lib_addrow extra_cols extra_mat s (nat_ents ent) (coef_of_sense sn)) as [s1| |] eqn:B; try discriminate.
+    destruct (lib_addrow extra_cols extra_mat fixed s (nat_ents ent) (coef_of_sense sn)) as [s1| |] eqn:B; try discriminate.
     apply (IH s1 p1); [eapply refines_addrow; eauto|exact H1|exact H2].
 Qed.
 
@@ -738,7 +740,7 @@ Proof. intros P. exfalso. eapply pstep_not_skip; eauto. Qed.
 
 (* one accepted call of the reference model, run on the concrete store *)
 Theorem l2_step_refines s p o p' t s' :
-  refines s p -> pstep M p o = (p', ROk t) -> l2_step extra_cols extra_mat p s o = Ok s' -> refines s' p'.
+  refines s p -> pstep M p o = (p', ROk t) -> l2_step extra_cols extra_mat fixed p s o = Ok s' -> refines s' p'.
 Proof.
   intros Rf P H. destruct (touches_matrix o) eqn:T.
   2:{ destruct (pstep_other_ents p o p' t T P) as (E1 & E2).
@@ -773,7 +775,7 @@ Fixpoint l2_run (p : prob) (s : lstore) (l : list pop) : res lstore :=
   match l with
   | [] => Ok s
   | o :: r => match snd (pstep M p o) with
-              | ROk _ => bind (l2_step extra_cols extra_mat p s o) (fun s' => l2_run (fst (pstep M p o)) s' r)
+              | ROk _ => bind (l2_step extra_cols extra_mat fixed p s o) (fun s' => l2_run (fst (pstep M p o)) s' r)
               | _ => l2_run p s r          (* a rejected call changes nothing *)
               end
   end.
@@ -782,7 +784,7 @@ Theorem l2_run_refines l : forall s p s', refines s p -> l2_run p s l = Ok s' ->
 Proof.
   induction l as [|o r IH]; intros s p s' Rf H; simpl in *; [inversion H; subst; exact Rf|].
   destruct (pstep M p o) as [p1 res] eqn:P. simpl in *. destruct res as [t| |].
-  - unfold bind in H. destruct (l2_step extra_cols extra_mat p s o) as [s1| |] eqn:S1; try discriminate.
+  - unfold bind in H. destruct (l2_step extra_cols extra_mat fixed p s o) as [s1| |] eqn:S1; try discriminate.
     apply (IH s1 p1 s'); [eapply l2_step_refines; eauto|exact H].
   - assert (p1 = p) by (eapply err_leaves_state_eq; exact P). subst p1. apply (IH s p s' Rf H).
   - assert (p1 = p) by (eapply skip_leaves_state_eq; exact P). subst p1. apply (IH s p s' Rf H).
@@ -815,10 +817,10 @@ Proof.
     rewrite seq_nth by exact Hj. simpl. rewrite nth_abs by exact Hj. reflexivity.
 Qed.
 
-Theorem abs_addrow extra_mat m ents m' :
-  WF m -> mat_addrow extra_mat m ents = Ok m' -> WF m' /\ abs m' = app_row_ent (abs m) 0 (mrows m) ents.
+Theorem abs_addrow extra_mat fixed m ents m' :
+  WF m -> mat_addrow extra_mat fixed m ents = Ok m' -> WF m' /\ abs m' = app_row_ent (abs m) 0 (mrows m) ents.
 Proof.
-  intros W H. destruct (mat_addrow_ok extra_mat m ents m' W H) as (W' & MC & _ & _ & CS). split; [exact W'|].
+  intros W H. destruct (mat_addrow_ok extra_mat fixed m ents m' W H) as (W' & MC & _ & _ & CS). split; [exact W'|].
   apply (nth_ext _ _ [] []); [rewrite app_row_ent_length, !abs_length; exact MC|].
   intros j Hj. rewrite abs_length, MC in Hj. rewrite nth_abs by (rewrite MC; exact Hj).
   rewrite nth_app_row_ent by (rewrite abs_length; exact Hj). rewrite nth_abs by exact Hj.
